@@ -71,19 +71,37 @@ EXPLANATION = (
     "_update_servermap(update_range=...)) and the segment numbers it records are the same whatever the filenode's "
     "cached size (MutableFileNode.get_size() / _most_recent_size, which update() / modify() do not refresh) is - "
     "evaluated for an accurate and for stale cached sizes on either side of each threshold. "
+    "(20) freshness of what a read is served from: the data-flow provenance (through local assignments, Deferred callback "
+    "chains, resolved method / nested-function calls with parameter substitution, functions that call a callable they are "
+    "given such as _do_serialized, tuples, derived objects; branch conditions are not data flow) of the value that "
+    "get_best_readable_version / get_readable_version / download_best_version / get_size_of_best_version / download_version / "
+    "get_best_mutable_version / get_mutable_version fire with, and of what MutableFileVersion.read / download_to_data hand to "
+    "Retrieve, is followed back to its leaves; it must reach the ServerMap() / ServermapUpdater of a mapupdate made for the "
+    "request (else analysis error), and every MutableFileNode attribute among the leaves that is assigned anywhere in "
+    "allmydata.mutable outside __init__ / init_from_cap / create_with_keys (a remembered servermap with its cached share "
+    "proxies, a remembered version object, remembered contents) must be forgotten - set to a constant / emptied, directly or "
+    "through a called method - by a callback registered BEHIND every Publish(..).publish() and Publish(..).update() started in "
+    "mutable/filenode.py, on the same Deferred, in the starting function or in every chain of callers / registrants up to a "
+    "public method (so a drop registered before the publish joins the chain, or only on the full-publish hooks and not on the "
+    "in-place path _build_uploadable_and_finish, is reported); on the unmodified tree no such attribute exists (reads are "
+    "served from the caller's servermap or from a fresh mapupdate; the leaves are the construction-time _storage_index, "
+    "_readkey, _writekey, _storage_broker, _secret_holder, _history). "
     "Undecided: block-hash-tree patching in Publish.update (old leaves kept, new leaves set), zfec and AES algebra, "
     "zero-length updates, sizes beyond 4 segments for the evaluated ranges (the arithmetic has no size-dependent "
     "branch other than the ones the grid crosses), whether the condition under which the proxies' tail block size "
     "falls back to the full block size is D % S == 0 (only the two formulas are compared; a wrong condition makes "
     "put_block / the block hash check fail loudly for every file that is not a multiple of S), test vectors and "
-    "checkstrings (C12), share placement, pause / stop handling, status and timing bookkeeping.")
+    "checkstrings (C12), share placement, pause / stop handling, status and timing bookkeeping; for (20): state remembered "
+    "outside the filenode object (a cache inside ServerMap / ServermapUpdater / the storage client, module globals), whether a "
+    "forgetting callback also runs when the publish fails, and whether the forgetting call inside a function is conditional.")
 TECHNIQUE = ("static analysis: polynomial normal forms of the size/offset formulas compared across writer and reader, "
              "folded struct format tables with field-role sequences, version-dominated CFG branches, bounded concrete "
              "evaluation (CFG interpreter over ints, dicts and abstract byte strings; nothing of the package is "
              "imported or run) of the segment-range, trimming, stitching and share-layout arithmetic over boundary "
              "inputs, order provenance of the decoder's two input sequences, shape inference for answer components, "
              "positional role tracking across the update-data hand-offs, return-value provenance of Deferreds, "
-             "differential evaluation (same inputs, different cached node size) of the update's decisions")
+             "differential evaluation (same inputs, different cached node size) of the update's decisions, interprocedural "
+             "value provenance along Deferred chains with must-follow of a state-dropping callback behind every publish start")
 
 LAY = "mutable.layout"
 WP = LAY + ":MDMFSlotWriteProxy"
@@ -2496,6 +2514,86 @@ def run(ctx: Context):
             r.violation(f0, f0.loc(e0), first[1])
 
 
+    # ---- 20. a read is served from the grid as it is after the last write made through the same node ----------------
+    # "each read after a successful operation returns the bytes obtained by applying the operations in order": whatever a
+    # MutableFileNode keeps from one operation to the next (a servermap with its share read-proxies, a version object,
+    # contents) and hands to a later read describes the shares as they were.  Every publish - full (Publish.publish) or in
+    # place (Publish.update) - changes the shares, so every path that publishes has to drop that state behind the publish.
+    with ctx.rule("C09.20", "R4/E7", "what a read of a MutableFileNode is served from (the servermap / version object / data that "
+                  "reaches the MutableFileVersion and the Retrieve) comes from the caller or from a mapupdate made for the read; "
+                  "any filenode attribute that is assigned while operations run and flows into a read is forgotten by a callback "
+                  "behind EVERY Publish.publish / Publish.update started in mutable/filenode.py, on every way up to a public method",
+                  expected=12) as r:
+        node_cls = idx.cls(NODE)
+        ver_cls = idx.cls(MFV)
+        org = _Origins(idx, node_cls, ver_cls)
+        ctor = {idx.func(NODE + "." + x).qual for x in ("__init__", "init_from_cap", "create_with_keys")}
+        entries = [idx.func(NODE + "." + x) for x in ("get_best_readable_version", "get_readable_version", "download_best_version",
+                                                     "get_size_of_best_version", "download_version", "get_best_mutable_version",
+                                                     "get_mutable_version")]
+        entries += [idx.func(MFV + "." + x) for x in ("read", "download_to_data")]
+        flows = {}                   # attribute -> entry functions whose result it reaches
+        for e in entries:
+            res = org.of_function(e)
+            attrs = sorted({l[1] for l in res if l[0] == "attr"})
+            r.site(e, None, "served from: %s" % (", ".join(attrs) or "-"))
+            r.count(len(res))
+            for a in attrs:
+                flows.setdefault(a, []).append(e)
+            if e.cls is node_cls and e.name in ("get_readable_version", "get_mutable_version"):
+                if ("fresh", "ServerMap") not in res or ("fresh", "MutableFileVersion") not in res:
+                    raise AnalysisError("cannot follow the servermap of %s from its mapupdate (ServerMap() .. ServermapUpdater.update()) "
+                                        "to the MutableFileVersion it returns" % short(e))
+            if e.cls is ver_cls and e.name == "read" and ("fresh", "Retrieve") not in res:
+                raise AnalysisError("cannot follow MutableFileVersion.read to its Retrieve")
+        # the Publish starts of the module
+        fmod = node_cls.module
+        mfuncs = [f for f in idx.funcs.values() if f.module is fmod]
+        starts = []
+        for f in mfuncs:
+            dfs = {}
+            for n in func_own_nodes(f):
+                if isinstance(n, ast.Assign):
+                    for t in n.targets:
+                        if isinstance(t, ast.Name):
+                            dfs.setdefault(t.id, []).append(n.value)
+            for c in calls_in_func(f, into_lambda=True):
+                if not (isinstance(c.func, ast.Attribute) and c.func.attr in ("publish", "update")):
+                    continue
+                rv = c.func.value
+                vals = dfs.get(rv.id, []) if isinstance(rv, ast.Name) else [rv]
+                if vals and all(isinstance(v, ast.Call) and call_tail(v) == "Publish" for v in vals):
+                    starts.append((f, c))
+        if len(starts) < 2 or not any(c.func.attr == "update" for (_f, c) in starts):
+            raise AnchorVanished("Publish(..).publish / Publish(..).update calls in mutable/filenode.py")
+        for (f, c) in starts:
+            r.site(f, c, "publish start")
+        # remembered state: flows into a read and is assigned outside the construction of the node
+        for a in sorted(flows):
+            sts = _node_attr_stores(idx, node_cls, ver_cls, a)
+            live = [(f, n, v, how) for (f, n, v, how) in sts if f.qual not in ctor and not (how in ("assign", "del") and _is_blank(v))]
+            if not live:
+                continue
+            inv = {f.qual for (f, n, v, how) in sts if f.module is fmod and f.qual not in ctor
+                   and ((how == "assign" and _is_blank(v)) or how == "del")}
+            fg = _Forgetting(idx, org, mfuncs, inv)
+            rf, rn = org.where[a][0]
+            wf, wn = live[0][0], live[0][1]
+            for (f, c) in starts:
+                r.count(len(fg.inv))
+                ch = fg.escape(f, c)
+                if ch is None:
+                    continue
+                r.violation(f, f.loc(c), "%s changes the shares of the file, but the filenode's remembered `%s` - assigned in %s "
+                            "(%s), read in %s (%s) and handed on to what %s serve%s a read from - is not dropped behind this "
+                            "publish on the way %s%s: a read after this write is served from the state of the shares as they were "
+                            "before it (stale servermap / cached read proxies / contents) and returns the old bytes" % (
+                                src(f, c), a, short(wf), wf.loc(wn), short(rf), rf.loc(rn),
+                                ", ".join(sorted({short(e) for e in flows[a]})), "s" if len(flows[a]) == 1 else "",
+                                " -> ".join(short(x) for x in ch),
+                                "" if fg.inv else " (nothing in mutable/filenode.py ever resets it)"))
+
+
 # ---- which component of a nested answer structure an expression is (flow-insensitive shape inference) ----
 # shapes: "shnum" / "block" / "salt" (atoms), ("tuple", (shapes..)), ("list", shape), ("dict", key shape, value shape),
 # None = nothing known yet (an empty container), "?" = cannot tell
@@ -3666,3 +3764,414 @@ class _Sim(object):
                     work.append((d, copy.deepcopy(fr), copy.deepcopy(hp)))
                 node = nxt[0][0]
         return out
+
+
+# ---- C09.20: where the value a read is served from comes from, and who forgets it ---------------------------------
+# Leaves of the provenance sets:  ("attr", X)          a read of the persistent filenode attribute X
+#                                 ("param", qual, p)   parameter p of function qual (substituted at resolved call sites)
+#                                 ("fresh", Name)      a Name(..) object constructed on the way
+NODE = "mutable.filenode:MutableFileNode"
+_REGK = {"addCallback": "cb", "addErrback": "eb", "addBoth": "both", "addCallbacks": "pair"}
+_EMPTY = frozenset()
+
+
+def _flat_targets(t):
+    if isinstance(t, (ast.Tuple, ast.List)):
+        for x in t.elts:
+            for y in _flat_targets(x):
+                yield y
+    elif isinstance(t, ast.Starred):
+        for y in _flat_targets(t.value):
+            yield y
+    else:
+        yield t
+
+
+class _Origins:
+    """Flow-insensitive, interprocedural data-flow provenance of the value an expression has or, for a Deferred, eventually
+    fires with: through local assignments, Deferred callback chains (callbacks receive the previous result), resolved method /
+    nested-function calls (parameters substituted), functions that call a callable they are given (_do_serialized), tuples
+    and derived objects (a constructed object or the result of an unresolved call derives from its receiver and arguments).
+    Branch conditions are not data flow."""
+
+    def __init__(self, idx, node_cls, version_cls):
+        self.idx = idx
+        self.node_cls = node_cls
+        self.version_cls = version_cls
+        self.memo = {}
+        self.busy = set()
+        self._defs = {}
+        self.where = {}          # attribute -> [(fn, ast node)] reads that flow somewhere
+
+    def defs(self, fn):
+        if fn.qual not in self._defs:
+            self._defs[fn.qual] = def_exprs(fn)
+        return self._defs[fn.qual]
+
+    def node_attr(self, fn, path):
+        """X when `path` (an attribute path read in fn) is the filenode's instance attribute X"""
+        parts = path.split(".")
+        if fn.cls is self.node_cls and parts[0] == "self" and len(parts) >= 2:
+            return None if self.node_cls.lookup(parts[1]) is not None else parts[1]
+        if fn.cls is self.version_cls and parts[:2] == ["self", "_node"] and len(parts) >= 3:
+            return None if self.node_cls.lookup(parts[2]) is not None else parts[2]
+        return None
+
+    # ------------------------------------------------------------------ callables
+    def resolve_callable(self, fn, f):
+        if isinstance(f, ast.Name):
+            p = fn
+            while p is not None:
+                if f.id in p.nested:
+                    return [p.nested[f.id]]
+                p = p.parent
+            g = fn.module.funcs.get(f.id)
+            return [g] if isinstance(g, FuncInfo) else []
+        if isinstance(f, ast.Attribute):
+            p = attr_path(f.value)
+            if p == "self" and fn.cls is not None:
+                m = fn.cls.lookup(f.attr)
+                return [m] if m is not None else []
+            if p == "self._node" and fn.cls is self.version_cls:
+                m = self.node_cls.lookup(f.attr)
+                return [m] if m is not None else []
+        return []
+
+    def called_params(self, callee):
+        out = []
+        ps = first_positional_params(callee)
+        for n in ast.walk(callee.node):
+            if isinstance(n, ast.Call) and isinstance(n.func, ast.Name) and n.func.id in ps and n.func.id not in out:
+                out.append(n.func.id)
+        return out
+
+    def of_function(self, fn):
+        if fn.qual in self.memo:
+            return self.memo[fn.qual]
+        if fn.qual in self.busy:
+            return _EMPTY
+        self.busy.add(fn.qual)
+        out = set()
+        for n in func_own_nodes(fn):
+            if isinstance(n, ast.Return) and n.value is not None:
+                out |= self.of_expr(fn, n.value, {})
+        self.busy.discard(fn.qual)
+        self.memo[fn.qual] = frozenset(out)
+        return self.memo[fn.qual]
+
+    def instantiate(self, callee, argsets, kwsets):
+        res = self.of_function(callee)
+        ps = first_positional_params(callee)
+        out = set()
+        for leaf in res:
+            if leaf[0] == "param" and leaf[1] == callee.qual:
+                nm = leaf[2]
+                if nm in ps and ps.index(nm) < len(argsets):
+                    out |= argsets[ps.index(nm)]
+                elif nm in kwsets:
+                    out |= kwsets[nm]
+                elif callee.node.args.vararg is not None and callee.node.args.vararg.arg == nm:
+                    for a in argsets[len([a for a in callee.node.args.args if a.arg not in ("self", "cls")]):]:
+                        out |= a
+                elif nm in ("self", "cls"):
+                    continue
+            else:
+                out.add(leaf)
+        return out
+
+    def call_callable(self, fn, target, first, extras, env, seen):
+        args = ([first] if first is not None else []) + list(extras)
+        if isinstance(target, ast.Lambda):
+            la = target.args
+            names = [a.arg for a in la.posonlyargs + la.args]
+            dflt = dict(zip(reversed(names), reversed(la.defaults)))
+            env2 = dict(env)
+            for i, nm in enumerate(names):
+                if i < len(args):
+                    env2[nm] = frozenset(args[i])
+                elif nm in dflt:
+                    env2[nm] = self.of_expr(fn, dflt[nm], env, seen)
+                else:
+                    env2[nm] = _EMPTY
+            return self.of_expr(fn, target.body, env2, seen)
+        callees = self.resolve_callable(fn, target)
+        if callees:
+            out = set()
+            for c in callees:
+                out |= self.instantiate(c, args, {})
+            return frozenset(out)
+        out = set()
+        for a in args:
+            out |= a
+        if isinstance(target, ast.Attribute):
+            out |= self.of_expr(fn, target.value, env, seen)
+        return frozenset(out)
+
+    def apply_reg(self, fn, kind, target, errtarget, extra_exprs, cur, env, seen):
+        extras = [self.of_expr(fn, a, env, seen) for a in extra_exprs]
+        if kind in ("cb", "both"):
+            return self.call_callable(fn, target, frozenset(cur), extras, env, seen)
+        if kind == "eb":
+            return frozenset(cur) | self.call_callable(fn, target, _EMPTY, extras, env, seen)
+        out = self.call_callable(fn, target, frozenset(cur), [], env, seen)
+        if errtarget is not None:
+            out = out | self.call_callable(fn, errtarget, _EMPTY, [], env, seen)
+        return out
+
+    # ------------------------------------------------------------------ expressions
+    def of_name(self, fn, name, env, seen):
+        if name in env:
+            return env[name]
+        key = (fn.qual, name)
+        if key in seen:
+            return _EMPTY
+        seen = seen | {key}
+        defs = self.defs(fn)
+        out = set()
+        if name in fn.params:
+            out.add(("param", fn.qual, name))
+        for v in defs.get(name, []):
+            out |= self.of_expr(fn, v, env, seen)
+        if name in defs:
+            for x in registrations(fn, name):
+                out = set(self.apply_reg(fn, x.kind, x.target, x.errtarget, x.args, out, env, seen))
+        if name not in defs and name not in fn.params and fn.parent is not None and name not in fn.nested:
+            return self.of_name(fn.parent, name, {}, seen)
+        return frozenset(out)
+
+    def of_call(self, fn, call, env, seen):
+        f = call.func
+        if isinstance(f, ast.Attribute) and f.attr in _REGK:
+            chain = []
+            cur_e = call
+            while isinstance(cur_e, ast.Call) and isinstance(cur_e.func, ast.Attribute) and cur_e.func.attr in _REGK:
+                chain.append(cur_e)
+                cur_e = cur_e.func.value
+            chain.reverse()
+            cur = self.of_expr(fn, cur_e, env, seen)
+            for c in chain:
+                kind = _REGK[c.func.attr]
+                if not c.args:
+                    continue
+                if kind == "pair":
+                    cur = self.apply_reg(fn, kind, c.args[0], c.args[1] if len(c.args) > 1 else None, [], cur, env, seen)
+                else:
+                    cur = self.apply_reg(fn, kind, c.args[0], None, c.args[1:], cur, env, seen)
+            return frozenset(cur)
+        argsets = [self.of_expr(fn, a.value if isinstance(a, ast.Starred) else a, env, seen) for a in call.args]
+        kwsets = {k.arg: self.of_expr(fn, k.value, env, seen) for k in call.keywords if k.arg}
+        tail = call_tail(call)
+        if tail == "succeed":
+            return argsets[0] if argsets else _EMPTY
+        if tail == "maybeDeferred" and call.args:
+            return self.call_callable(fn, call.args[0], None, argsets[1:], env, seen)
+        callees = self.resolve_callable(fn, f)
+        out = set()
+        if callees:
+            for c in callees:
+                out |= self.instantiate(c, argsets, kwsets)
+                ps = first_positional_params(c)
+                for nm in self.called_params(c):
+                    i = ps.index(nm)
+                    if i < len(call.args):
+                        out |= self.call_callable(fn, call.args[i], None, argsets[i + 1:], env, seen)
+            return frozenset(out)
+        for a in argsets:
+            out |= a
+        for a in kwsets.values():
+            out |= a
+        if isinstance(f, ast.Attribute):
+            out |= self.of_expr(fn, f.value, env, seen)
+        elif isinstance(f, ast.Name) and f.id[:1].isupper():
+            out.add(("fresh", f.id))
+        if isinstance(f, ast.Attribute) and f.attr[:1].isupper():
+            out.add(("fresh", f.attr))
+        return frozenset(out)
+
+    def of_expr(self, fn, e, env, seen=_EMPTY):
+        if e is None or isinstance(e, (ast.Constant, ast.Lambda, ast.Compare, ast.JoinedStr)):
+            return _EMPTY
+        if isinstance(e, ast.Await):
+            return self.of_expr(fn, e.value, env, seen)
+        if isinstance(e, ast.Name):
+            return self.of_name(fn, e.id, env, seen)
+        if isinstance(e, ast.Attribute):
+            p = attr_path(e)
+            if p:
+                a = self.node_attr(fn, p)
+                if a:
+                    self.where.setdefault(a, []).append((fn, e))
+                    return frozenset([("attr", a)])
+                base = p.split(".")[0]
+                if base == "self":
+                    return _EMPTY
+                return self.of_name(fn, base, env, seen)
+            return self.of_expr(fn, e.value, env, seen)
+        if isinstance(e, ast.Call):
+            return self.of_call(fn, e, env, seen)
+        if isinstance(e, ast.Subscript):
+            return self.of_expr(fn, e.value, env, seen)
+        if isinstance(e, ast.Starred):
+            return self.of_expr(fn, e.value, env, seen)
+        out = set()
+        if isinstance(e, (ast.Tuple, ast.List, ast.Set)):
+            for x in e.elts:
+                out |= self.of_expr(fn, x, env, seen)
+        elif isinstance(e, ast.Dict):
+            for x in list(e.keys) + list(e.values):
+                out |= self.of_expr(fn, x, env, seen)
+        elif isinstance(e, ast.IfExp):
+            out |= self.of_expr(fn, e.body, env, seen) | self.of_expr(fn, e.orelse, env, seen)
+        elif isinstance(e, ast.BoolOp):
+            for x in e.values:
+                out |= self.of_expr(fn, x, env, seen)
+        elif isinstance(e, ast.BinOp):
+            out |= self.of_expr(fn, e.left, env, seen) | self.of_expr(fn, e.right, env, seen)
+        elif isinstance(e, ast.UnaryOp):
+            out |= self.of_expr(fn, e.operand, env, seen)
+        elif isinstance(e, ast.NamedExpr):
+            out |= self.of_expr(fn, e.value, env, seen)
+        else:
+            # comprehensions and whatever else: everything the expression reads (comprehension variables resolve to nothing)
+            bound = {t.id for c in getattr(e, "generators", []) for t in ast.walk(c.target) if isinstance(t, ast.Name)}
+            for x in own_nodes(e, into_lambda=True):
+                if isinstance(x, ast.Attribute) and attr_path(x):
+                    a = self.node_attr(fn, attr_path(x))
+                    if a:
+                        self.where.setdefault(a, []).append((fn, x))
+                        out.add(("attr", a))
+                elif isinstance(x, ast.Name) and x.id not in bound and isinstance(x.ctx, ast.Load):
+                    out |= self.of_name(fn, x.id, env, seen)
+        return frozenset(out)
+
+
+def _node_attr_stores(idx, node_cls, version_cls, attr):
+    """[(fn, ast node, value or None, how)] every place of allmydata.mutable that assigns / fills / empties the filenode
+    attribute `attr` (self.X in MutableFileNode, <expr>._node.X / <expr>.node.X elsewhere)."""
+    out = []
+
+    def is_it(f, path):
+        if path is None:
+            return False
+        parts = path.split(".")
+        if parts[-1] != attr or len(parts) < 2:
+            return False
+        if parts[:-1] == ["self"]:
+            return f.cls is node_cls
+        return parts[-2] in ("_node", "node", "filenode", "_filenode")
+    for f in idx.funcs.values():
+        if not f.module.name.startswith("allmydata.mutable."):
+            continue
+        for n in func_own_nodes(f, into_lambda=True):
+            if isinstance(n, (ast.Assign, ast.AnnAssign, ast.AugAssign)):
+                ts = n.targets if isinstance(n, ast.Assign) else [n.target]
+                for t0 in ts:
+                    for t in _flat_targets(t0):
+                        if isinstance(t, ast.Attribute) and is_it(f, attr_path(t)):
+                            out.append((f, n, n.value, "assign"))
+                        elif isinstance(t, ast.Subscript) and is_it(f, attr_path(t.value)):
+                            out.append((f, n, n.value, "item"))
+            elif isinstance(n, ast.Delete):
+                for t in n.targets:
+                    if is_it(f, attr_path(t)) or (isinstance(t, ast.Subscript) and is_it(f, attr_path(t.value))):
+                        out.append((f, n, None, "del"))
+            elif isinstance(n, ast.Call) and isinstance(n.func, ast.Attribute) and is_it(f, attr_path(n.func.value)):
+                if n.func.attr in ("append", "add", "update", "extend", "insert", "setdefault", "appendleft"):
+                    out.append((f, n, n, "fill"))
+                elif n.func.attr in ("clear", "pop", "popitem", "discard", "remove"):
+                    out.append((f, n, None, "del"))
+    return out
+
+
+def _is_blank(v):
+    if v is None:
+        return True
+    if isinstance(v, ast.Constant):
+        return True
+    if isinstance(v, (ast.Dict, ast.List, ast.Set, ast.Tuple)):
+        return not (v.keys if isinstance(v, ast.Dict) else v.elts)
+    if isinstance(v, ast.Call) and isinstance(v.func, ast.Name) and v.func.id in ("dict", "list", "set", "tuple", "frozenset") \
+            and not v.args and not v.keywords:
+        return True
+    return False
+
+
+class _Forgetting:
+    """For one remembered attribute: which functions of mutable/filenode.py forget it (directly or by calling one that does),
+    and whether every way from a Publish start up to a public method passes, BEHIND the publish on the same Deferred, a
+    callback that forgets it."""
+
+    def __init__(self, idx, org, funcs, inv):
+        self.idx = idx
+        self.org = org
+        self.funcs = funcs                  # FuncInfos of the module (nested ones included)
+        self.inv = set(inv)                 # quals that forget the attribute directly
+        changed = True
+        while changed:
+            changed = False
+            for f in funcs:
+                if f.qual in self.inv:
+                    continue
+                for n in func_own_nodes(f, into_lambda=True):
+                    if isinstance(n, ast.Call) and any(c.qual in self.inv for c in org.resolve_callable(f, n.func)):
+                        self.inv.add(f.qual)
+                        changed = True
+                        break
+
+    def forgets(self, g, target):
+        if isinstance(target, ast.Lambda):
+            return any(isinstance(c, ast.Call) and any(x.qual in self.inv for x in self.org.resolve_callable(g, c.func))
+                       for c in ast.walk(target.body))
+        return any(x.qual in self.inv for x in self.org.resolve_callable(g, target))
+
+    def covered(self, g, u):
+        """is the work started / referenced by the expression u inside g followed, on its Deferred, by a forgetting callback?"""
+        regs = registrations(g)
+        inside = lambda root: any(x is u for x in ast.walk(root))
+        after = [x for x in regs if inside(x.call.func.value)]
+        var, pos = None, None
+        for i, x in enumerate(regs):
+            if x not in after and (inside(x.target) or any(inside(a) for a in x.args)) and x.recv:
+                var, pos = x.recv, i
+        if var is None:
+            for n in func_own_nodes(g):
+                if isinstance(n, ast.Assign) and len(n.targets) == 1 and isinstance(n.targets[0], ast.Name) and inside(n.value):
+                    var, pos = n.targets[0].id, -1
+        if var is not None:
+            after += [x for i, x in enumerate(regs) if x.recv == var and i > pos and x not in after]
+        return any(x.kind in ("cb", "both", "pair") and self.forgets(g, x.target) for x in after)
+
+    def users(self, f):
+        """(g, expression) every call of / reference to f in the module"""
+        out = []
+        for g in self.funcs:
+            for n in func_own_nodes(g, into_lambda=True):
+                if isinstance(n, ast.Call):
+                    cs = self.org.resolve_callable(g, n.func)
+                    if any(c is f for c in cs):
+                        out.append((g, n))
+                        continue
+                    fa = n.func
+                    if not cs and isinstance(fa, ast.Attribute) and fa.attr == f.name and f.parent is None \
+                            and (attr_path(fa.value) or "").split(".")[0] != "self":
+                        out.append((g, n))
+                elif isinstance(n, (ast.Attribute, ast.Name)) and isinstance(getattr(n, "ctx", None), ast.Load):
+                    if any(c is f for c in self.org.resolve_callable(g, n)):
+                        out.append((g, n))
+        # a call is reported once (the Call), not again through its func expression
+        calls = {id(n.func) for (_g, n) in out if isinstance(n, ast.Call)}
+        return [(g, n) for (g, n) in out if id(n) not in calls]
+
+    def escape(self, g, u, seen=()):
+        """None when every way up from (g, u) is covered, else the chain of functions of an uncovered way to a public method"""
+        if self.covered(g, u):
+            return None
+        if g.parent is None and not g.name.startswith("_"):
+            return [g]
+        if g.qual in seen:
+            return None
+        for (h, v) in self.users(g):
+            ch = self.escape(h, v, seen + (g.qual,))
+            if ch is not None:
+                return [g] + ch
+        return None
